@@ -1,7 +1,7 @@
 """C18 - end-of-session processing completes for every test program."""
 from . import assign
 from .core import core_check
-from .. import assign_replay, partial_replay, tlc
+from .. import assign_replay, partial_replay, seqedit_replay, tlc
 
 
 def _structural(chk):
@@ -10,6 +10,7 @@ def _structural(chk):
         partial_replay.run(chk, k=2, max_cmp=3)
     else:
         partial_replay.run(chk, k=3, max_cmp=3, stride=8)
+    seqedit_replay.run(chk, stride=16 if chk.quick else 2)
     sizes = assign.SIZES[chk.tier]
     for shape in ("inner", "nest", "call"):
         ts_mc, ts, st, keep = sizes[shape]
@@ -29,8 +30,15 @@ def _structural(chk):
         assign.run_cases(chk, cases, shape)
 
 
+def _layout_some(run):
+    # a third of the programs in unusual file layouts (encoding declaration, BOM, line ends, form feeds ...)
+    if run["h"] % 3 == 0:
+        from .c03 import _layout
+        _layout(run)
+
+
 def run():
-    chk = core_check("C18", cfgs=("A",), quick_keep=16, thorough_keep=4, overrides={"HostileOK": True},
+    chk = core_check("C18", cfgs=("A",), annotate=_layout_some, quick_keep=16, thorough_keep=4, overrides={"HostileOK": True},
                      sessions_quick=320, sessions_thorough=3000, extra=_structural, traces=(3000, 60000),
                      # real sessions: programs where several categories are pending AND approved (the report loop of
                      # the plugin handles the categories one after the other on the same recorder)
